@@ -275,9 +275,10 @@ class Agent:
             level=1 if auth_user is not None else 0,
             user=auth_user,
             user_name=user,
+            ctx_engine=getattr(self, "report_context_engine", None),
         )
 
-    def _v3_out(self, msg, pdu, level, user, user_name=None, forms=None):
+    def _v3_out(self, msg, pdu, level, user, user_name=None, forms=None, ctx_engine=None):
         if user_name is None:
             user_name = user.name if user is not None else b""
         usm = {
@@ -295,13 +296,16 @@ class Agent:
             "sec_model": 3,
             "usm": usm,
         }
-        scoped = ber.enc_scoped_pdu(self.engine_id, b"", pdu, forms)
+        # reports may name another context engine than the authoritative engine that
+        # signs them (a proxy, a non-default context); responses always name ours
+        ce = ctx_engine if ctx_engine is not None else self.engine_id
+        scoped = ber.enc_scoped_pdu(ce, b"", pdu, forms)
         if "scoped" in msg:
             scoped = ber.enc_scoped_pdu(
-                self.engine_id, msg["scoped"]["ctx_name"], pdu, forms
+                ce, msg["scoped"]["ctx_name"], pdu, forms
             )
         elif "_ctx_name" in msg:
-            scoped = ber.enc_scoped_pdu(self.engine_id, msg["_ctx_name"], pdu, forms)
+            scoped = ber.enc_scoped_pdu(ce, msg["_ctx_name"], pdu, forms)
         if level & 2:
             key = user.priv_key(self.engine_id)
             cipher, salt = privxf.encrypt(
